@@ -153,127 +153,151 @@ def unpack_pairs(ctx: Ctx, rule: str):
 
 
 def index_templates(ctx: Ctx, rule: str):
+    """The index functions and init functions of the three template modules, judged on the text they generate
+    (sa.av skeletons: helpers expanded, locals resolved, indent / dedent applied)."""
+    import re
+
+    from . import util
+
     sm = ctx.sm
     T = tm.TemplateModel(sm)
     # python: dict literal + subscript lookup (KeyError for unknown names)
-    idx = T.func("templates/python.py", "_index")
-    ctx.require(idx, "templates/python.py::_index not found")
-    sk = tm.returned_skeletons(idx)[-1]
-    tree = tm.py_parse(sk)
-    assigns = [n for n in tree.body if isinstance(n, ast.Assign)]
-    fdefs = [n for n in tree.body if isinstance(n, ast.FunctionDef)]
-    p_name = [k for k, v in sk.placeholders.items() if v == idx.params[1]]
-    p_data = [k for k, v in sk.placeholders.items() if idx.params[0] in v]
-    ok_dict = bool(assigns) and bool(p_name) and bool(p_data) and norm(assigns[0].targets[0]) == p_name[0] and norm(assigns[0].value) == p_data[0] and sk.placeholders[p_data[0]] in (f"repr({idx.params[0]})", idx.params[0], f"str({idx.params[0]})", f"dict({idx.params[0]})")
-    ctx.check(ok_dict, rule, idx.key("table"), "<family> = repr(data)", "python _index template does not bind the family table to repr(data)", idx.where())
-    ok_fn = False
-    if fdefs and p_name:
-        fd = fdefs[0]
-        rets = [n for n in ast.walk(fd) if isinstance(n, ast.Return)]
-        arg = fd.args.args[0].arg if fd.args.args else None
-        ok_fn = fd.name == p_name[0] + "_index" and len(rets) == 1 and norm(rets[0].value) == f"{p_name[0]}[{arg}]"
-    ctx.check(ok_fn, rule, idx.key("lookup"), "<family>_index(name) returns <family>[name] (KeyError for unknown names)", "python _index template: the lookup function is not `return <family>[name]` (unknown names would not be refused, or another table is read)", idx.where())
     for fam in ("state", "parameter", "monitor", "missing"):
         f = T.func("templates/python.py", f"{fam}_index")
         ctx.require(f, f"templates/python.py::{fam}_index not found")
-        calls = [c for c in find_calls(f.node, "_index")]
-        okk = bool(calls) and len(calls[0].args) >= 2 and const_str(calls[0].args[1]) == fam and norm(calls[0].args[0]) == f.params[0]
-        ctx.check(okk, rule, f.key("family-name"), f"{fam}_index -> _index(data, '{fam}')", f"templates.python.{fam}_index does not call _index(data, '{fam}')", f.where())
+        sk = util.skeleton(ctx, rule, "templates/python.py", f"{fam}_index")
+        if sk is None:
+            continue
+        tree = tm.py_parse(sk)
+        assigns = [n for n in tree.body if isinstance(n, ast.Assign) and isinstance(n.targets[0], ast.Name)]
+        fdefs = [n for n in tree.body if isinstance(n, ast.FunctionDef)]
+        table = assigns[0].targets[0].id if assigns else None
+        src = sk.placeholders.get(norm(assigns[0].value), "") if assigns else ""
+        pdata = f.params[0]
+        ok_dict = bool(assigns) and src in (f"repr({pdata})", pdata, f"str({pdata})", f"dict({pdata})")
+        ctx.check(ok_dict, rule, f.key("table"), "<family> = repr(data)", f"python {fam}_index template does not bind the family table to repr(data) (it is `{src}`)", f.where())
+        ok_fn = False
+        if fdefs and table:
+            fd = fdefs[0]
+            rets = [n for n in ast.walk(fd) if isinstance(n, ast.Return)]
+            arg = fd.args.args[0].arg if fd.args.args else None
+            ok_fn = len(rets) == 1 and norm(rets[0].value) == f"{table}[{arg}]"
+        ctx.check(ok_fn, rule, f.key("lookup"), "<family>_index(name) returns <family>[name] (KeyError for unknown names)", f"python {fam}_index template: the lookup function is not `return <table>[name]` of the table bound above (unknown names would not be refused, or another table is read)", f.where())
+        ctx.check(bool(fdefs) and fdefs[0].name == f"{fam}_index", rule, f.key("family-name"), f"defines {fam}_index", f"templates.python.{fam}_index generates a function called {fdefs[0].name if fdefs else None!r} (another family's name)", f.where())
         fj = T.func("templates/jax.py", f"{fam}_index")
-        ctx.check(fj is f, rule, f"src/gotranx/templates/jax.py::{fam}_index", "jax re-uses the python index template", f"templates.jax.{fam}_index is not the python template", fj.where() if fj else "")
+        same = fj is f
+        if not same and fj is not None:
+            skj = util.skeleton(ctx, rule, "templates/jax.py", f"{fam}_index")
+            same = skj is not None and skj.raw == sk.raw
+        ctx.check(same, rule, f"src/gotranx/templates/jax.py::{fam}_index", "jax uses the python index template", f"templates.jax.{fam}_index does not generate the text of the python template", fj.where() if fj else "")
     # C: strcmp chain + -1
-    mi = T.func("templates/c.py", "method_index")
-    ctx.require(mi, "templates/c.py::method_index not found")
-    strs = [s for n in ast.walk(mi.node) for s in ([n.value] if isinstance(n, ast.Constant) and isinstance(n.value, str) else [])]
-    fs = [tm.fstring_parts(n) for n in ast.walk(mi.node) if isinstance(n, ast.JoinedStr)]
-    alltext = "\n".join(strs + [p[2] for p in fs if p])
-    ctx.check('strcmp(name, "{name}") == 0' in alltext and "return {index};" in alltext, rule, mi.key("strcmp-chain"), 'if (strcmp(name, "<name>") == 0) return <index>;', "C method_index: the branch template is not `strcmp(name, \"{name}\") == 0 ... return {index};`", mi.where())
-    ctx.check("return -1;" in alltext, rule, mi.key("unknown-name"), "unknown names return -1", "C method_index no longer ends with `return -1;` for unknown names", mi.where())
-    ctx.check("int {method_name}_index(const char name[])" in alltext, rule, mi.key("signature"), "int <family>_index(const char name[])", "C method_index: signature is not int <family>_index(const char name[])", mi.where())
-    loops = [n for n in ast.walk(mi.node) if isinstance(n, ast.For)]
-    okl = False
-    if loops:
-        it = norm(loops[0].iter)
-        okl = it == f"enumerate({mi.params[0]}.items())"
-        fmt = [c for c in ast.walk(loops[0]) if isinstance(c, ast.Call) and isinstance(c.func, ast.Attribute) and c.func.attr == "format"]
-        if okl and fmt and isinstance(loops[0].target, ast.Tuple) and isinstance(loops[0].target.elts[1], ast.Tuple):
-            nm, ix = [e.id for e in loops[0].target.elts[1].elts]
-            kws = {k.arg: norm(k.value) for k in fmt[0].keywords}
-            okl = kws.get("name") == nm and kws.get("index") == ix
-        else:
-            okl = False
-    ctx.check(okl, rule, mi.key("pairs"), "each (name, index) pair of data is emitted once", "C method_index does not emit name=<key>, index=<value> for each item of data", mi.where())
     for fam in ("state", "parameter", "monitor", "missing"):
         f = T.func("templates/c.py", f"{fam}_index")
         ctx.require(f, f"templates/c.py::{fam}_index not found")
-        calls = [c for c in find_calls(f.node, "method_index")]
-        okk = bool(calls) and len(calls[0].args) >= 2 and const_str(calls[0].args[1]) == fam and norm(calls[0].args[0]) == f.params[0]
-        ctx.check(okk, rule, f.key("family-name"), f"{fam}_index -> method_index(data, '{fam}')", f"templates.c.{fam}_index calls method_index with {norm(calls[0].args[1]) if calls and len(calls[0].args) > 1 else None} instead of '{fam}' (the generated C function gets another family's name)", f.where())
-    # init templates call their own index function, zip names with values
+        sk = util.skeleton(ctx, rule, "templates/c.py", f"{fam}_index")
+        if sk is None:
+            continue
+        raw = util.squash(sk.raw)
+        pdata = f.params[0]
+        m = re.search(r"int (\w+)_index\(const char name\[\]\) \{ (.*)\}$", raw)
+        ctx.check(m is not None, rule, f.key("signature"), "int <family>_index(const char name[])", f"C {fam}_index: signature is not int <family>_index(const char name[]) {{ ... }}", f.where())
+        if m is None:
+            continue
+        ctx.check(m.group(1) == fam, rule, f.key("family-name"), f"defines {fam}_index", f"templates.c.{fam}_index generates a function called {m.group(1)}_index (the generated C function gets another family's name)", f.where())
+        body = m.group(2)
+        lp = re.match(r"⟦for \$(\d+) in " + re.escape(pdata) + r"\.items\(\): (.*?)⟧ (.*)$", body)
+        okl = lp is not None
+        if okl:
+            d, inner, tail = lp.group(1), lp.group(2), lp.group(3)
+            okb = re.fullmatch(r"\{\('if' if first\$" + d + r" else 'else if'\)\} \(strcmp\(name, \"\{\$" + d + r"\.0\}\"\) == 0\) \{ return \{\$" + d + r"\.1\}; \}", inner.strip()) is not None
+            ctx.check(okb, rule, f.key("strcmp-chain"), 'if / else if (strcmp(name, "<name>") == 0) { return <index>; }', f"C {fam}_index: the branch for each (name, index) pair is `{inner.strip()[:120]}`, not `if|else if (strcmp(name, \"<key>\") == 0) {{ return <value>; }}`", f.where())
+            ctx.check(tail.strip() == "return -1;", rule, f.key("unknown-name"), "unknown names return -1", f"C {fam}_index ends with `{tail.strip()[:60]}` instead of `return -1;` for unknown names", f.where())
+        ctx.check(okl, rule, f.key("pairs"), "each (name, index) pair of data is emitted once, in the order of data", f"C {fam}_index does not emit one branch per item of `{pdata}.items()` (body: {body[:100]})", f.where())
+    # init templates call their own index function, list the defaults in order
     for short in ("templates/python.py", "templates/jax.py"):
         for fam, fn in (("state", "init_state_values"), ("parameter", "init_parameter_values")):
             f = T.func(short, fn)
             ctx.require(f, f"{short}::{fn} not found")
-            sk = tm.returned_skeletons(f)[-1]
+            sk = util.skeleton(ctx, rule, short, fn)
+            if sk is None:
+                continue
             tree = tm.py_parse(sk)
             called = {(dotted(c.func) or "") for c in ast.walk(tree) if isinstance(c, ast.Call)}
             other = "parameter_index" if fam == "state" else "state_index"
             ctx.check(f"{fam}_index" in called and other not in called, rule, f.key("index-function"), f"keyword overrides go through {fam}_index", f"{short}::{fn} looks keyword overrides up with {sorted(c for c in called if c.endswith('_index'))}, not {fam}_index", f.where())
-            # defaults array built from <fam>_values in order
-            vals = [n for n in ast.walk(f.node) if isinstance(n, ast.Assign) and norm(n.targets[0]) == "values"]
-            okv = bool(vals) and norm(vals[0].value).replace("'", '"') == f'", ".join(map(str, {fam}_values))'
-            ctx.check(okv, rule, f.key("defaults-order"), f"defaults listed in the order of {fam}_values", f"{short}::{fn}: the defaults array is not `', '.join(map(str, {fam}_values))`", f.where())
-            # the array literal and the store/at-set
             txt = sk.raw
-            okarr = "numpy.array([{values}], dtype=numpy.float64)" in txt
-            ctx.check(okarr, rule, f.key("array"), "numpy.array([<defaults>])", f"{short}::{fn}: result is not numpy.array([{{values}}], dtype=numpy.float64)", f.where())
+            pvals = [p_ for p_ in f.params if p_.endswith("_values")]
+            pv = pvals[0] if pvals else f"{fam}_values"
+            okarr = re.search(r"\{name\} = numpy\.array\(\[\{join\(', ', map\(str, " + re.escape(pv) + r"\)\)\}\], dtype=numpy\.float64\)", txt) is not None
+            ctx.check(okarr, rule, f.key("defaults-order"), f"numpy.array([<{pv} in order>], dtype=numpy.float64)", f"{short}::{fn}: the defaults array is not numpy.array([', '.join(map(str, {pv}))], dtype=numpy.float64)", f.where())
             if short.endswith("python.py"):
                 oks = f"{{name}}[{fam}_index(key)] = value" in txt
             else:
                 oks = f"{{name}} = {{name}}.at[{fam}_index(key)].set(value)" in txt
             ctx.check(oks, rule, f.key("override"), "override stored at <family>_index(key)", f"{short}::{fn}: keyword overrides are not stored at {fam}_index(key)", f.where())
+            ctx.check(bool(re.search(r"return \{name\}\s*$", txt.rstrip() + "\n")), rule, f.key("returns-array"), "returns the array", f"{short}::{fn}: the function does not end with `return <the array>`", f.where())
     for fam, fn in (("state", "init_state_values"), ("parameter", "init_parameter_values")):
         f = T.func("templates/c.py", fn)
-        sk = tm.returned_skeletons(f)[-1]
-        ctx.check("{indented_code}" in sk.raw and f"void {fn}(double* {{name}})" in sk.raw, rule, f.key("body"), "C init writes the printed slot assignments", f"templates.c.{fn} no longer emits the slot assignments into void {fn}(double* name)", f.where())
+        sk = util.skeleton(ctx, rule, "templates/c.py", fn)
+        if sk is None:
+            continue
+        raw = util.squash(sk.raw)
+        ctx.check(re.search(r"void " + fn + r"\(double\* \{name\}\)\{ .*\{code\} \}$", raw) is not None, rule, f.key("body"), "C init writes the printed slot assignments", f"templates.c.{fn} no longer emits the slot assignments into void {fn}(double* name)", f.where())
+
+
+def func_tuple(ctx: Ctx, f, args: dict | None = None):
+    """kwargs of the Func(...) tuple an argument helper returns (abstract values), or None."""
+    from . import util
+
+    v = util.value_of(ctx, f, args)
+    return util.call_kwargs(v, "Func"), v
 
 
 def argument_orders(ctx: Ctx, rule: str):
+    from sa import av
+
+    from . import util
+
     sm = ctx.sm
     for cname, letters in (("RHSArgument", "stp"), ("SchemeArgument", "stpd")):
         vals = common.enum_values(ctx, "codegen/base.py", cname)
         perms = {"".join(p) for p in itertools.permutations(letters)}
         c = sm.cls("codegen/base.py", cname)
         ctx.check(set(vals.values()) == perms and all(k == v for k, v in vals.items()), rule, f"src/gotranx/codegen/base.py::{cname}::members", f"{len(perms)} permutations of '{letters}'", f"{cname} members {sorted(set(vals.values()) ^ perms)} differ from the {len(perms)} permutations of '{letters}' (or a member's value differs from its name)", c.where())
-    expect = {
-        "python": {"s": "states", "t": "t", "p": "parameters", "d": "dt"},
-        "c": {"s": "states", "t": "t", "p": "parameters", "d": "dt"},
-    }
+    expect = {"s": "states", "t": "t", "p": "parameters", "d": "dt"}
     for short, cls in (("codegen/python.py", "PythonCodeGenerator"), ("codegen/c.py", "CCodeGenerator")):
-        lang = "python" if "python" in short else "c"
         for m, letters in (("_rhs_arguments", "stp"), ("_scheme_arguments", "stpd")):
             f = sm.func(short, f"{cls}.{m}")
-            d = [n for n in ast.walk(f.node) if isinstance(n, ast.Dict)]
-            ctx.require(d, f"{f.key()}: argument_dict not found")
-            entries = {const_str(k): v for k, v in zip(d[0].keys, d[0].values)}
-            ok = set(entries) == set(letters)
-            bad = []
-            for k, v in entries.items():
-                want = expect[lang].get(k)
-                txt = " ".join(s for s in [const_str(x) for x in ast.walk(v) if isinstance(x, ast.Constant)] if s)
-                last = txt.split()[-1] if txt.split() else ""
-                if last != want:
-                    bad.append((k, txt))
-            ctx.check(ok and not bad, rule, f.key("argument_dict"), f"letters {sorted(entries)} name the objects the body reads", f"{f.qualname}: argument_dict keys {sorted(entries)} / values {bad} do not match letters '{letters}' -> states, t, parameters, dt", f.where())
-            # the formal list is the order string mapped letter by letter
-            comps = [n for n in ast.walk(f.node) if isinstance(n, ast.ListComp) and isinstance(n.elt, ast.Subscript)]
-            okc = bool(comps) and norm(comps[0].elt.slice) == comps[0].generators[0].target.id and norm(comps[0].generators[0].iter) == "value"
-            ctx.check(okc, rule, f.key("argument_list"), "[argument_dict[v] for v in value]", f"{f.qualname}: the formal argument list is not [argument_dict[v] for v in <order string>]", f.where())
+            kw, v = func_tuple(ctx, f)
+            if kw is None or av.has_unk(kw.get("arguments", ("unk", ""))):
+                ctx.undecided(rule, f.key("argument_list"), f"the value returned is not a Func(...) tuple with an understood argument list ({av.show(v)[:120]})", f.where())
+                continue
+            arguments = kw["arguments"]
+            comps = [x for x in av.find_all(arguments, "comp")]
+            okc = False
+            entries = {}
+            enum = "RHSArgument" if m == "_rhs_arguments" else "SchemeArgument"
+            if comps:
+                cp = comps[0]
+                it_ok = cp[2] == ("call", f"{enum}.get_value", (("sym", "order"),), ()) and not cp[4]
+                item = cp[3][0] if len(cp[3]) == 1 else None
+                if item is not None and item[0] == "sub" and item[2] == ("bv", cp[1]) and item[1][0] == "dict":
+                    entries = {k[1]: x for k, x in item[1][1] if k[0] == "c"}
+                    okc = it_ok
+            ctx.check(okc, rule, f.key("argument_list"), "[argument_dict[v] for v in <order string>]", f"{f.qualname}: the formal argument list is not [argument_dict[letter] for letter in {enum}.get_value(order)] (it is {av.show(arguments)[:160]})", f.where())
+            if entries:
+                bad = []
+                for k, x in entries.items():
+                    words = av.flatten(x).replace(av.HO, " {").replace(av.HC, "} ").split() if av._is_str(x) else []
+                    if not words or words[-1] != expect.get(k):
+                        bad.append((k, av.show(x)[:60]))
+                ctx.check(set(entries) == set(letters) and not bad, rule, f.key("argument_dict"), f"letters {sorted(entries)} name the objects the body reads", f"{f.qualname}: argument_dict keys {sorted(entries)} / values {bad} do not match letters '{letters}' -> states, t, parameters, dt", f.where())
             # IndexedBase names read by the body are those of the formals
             ib = {}
-            for n in ast.walk(f.node):
-                if isinstance(n, ast.Assign) and isinstance(n.value, ast.Call) and (dotted(n.value.func) or "").endswith("IndexedBase") and n.value.args:
-                    ib[norm(n.targets[0])] = const_str(n.value.args[0])
+            for nm in ("states", "parameters", "values"):
+                x = kw.get(nm)
+                if x is not None and x[0] == "call" and x[1].endswith("IndexedBase") and x[2] and x[2][0][0] == "c":
+                    ib[nm] = x[2][0][1]
             ctx.check(ib.get("states") == "states" and ib.get("parameters") == "parameters" and ib.get("values") == "values", rule, f.key("indexed-bases"), "IndexedBase labels states/parameters/values", f"{f.qualname}: IndexedBase labels {ib} differ from the formal names states/parameters/values", f.where())
     # `order` reaches nothing but the argument helpers
     cgc = sm.cls("codegen/base.py", "CodeGenerator")
@@ -281,28 +305,34 @@ def argument_orders(ctx: Ctx, rule: str):
         f = cgc.methods[mname]
         uses = [n for n in ast.walk(f.node) if isinstance(n, ast.Name) and n.id == "order" and isinstance(n.ctx, ast.Load)]
         calls = [c for c in ast.walk(f.node) if isinstance(c, ast.Call) and (dotted(c.func) or "") in ("self._rhs_arguments", "self._scheme_arguments")]
-        okk = len(uses) == 1 and len(calls) == 1 and any(u is a for a in calls[0].args for u in uses)
+        okk = len(uses) == 1 and len(calls) == 1 and any(u is a for a in list(calls[0].args) + [k.value for k in calls[0].keywords] for u in uses)
         ctx.check(okk, rule, f.key("order-use"), "order only selects the formal argument list", f"CodeGenerator.{mname}: `order` is used {len(uses)} time(s), not exactly once as the argument of the argument-list helper", f.where())
 
 
 def counts(ctx: Ctx, rule: str):
+    import re
+
+    from sa import av
+
+    from . import util
+
     sm = ctx.sm
     g = sm.func("cli/gotran2c.py", "get_code")
-    fs = [tm.fstring_parts(n) for n in ast.walk(g.node) if isinstance(n, ast.JoinedStr)]
+    gv = util.value_of(ctx, g)
     found = {}
-    for n in ast.walk(g.node):
-        if isinstance(n, ast.JoinedStr):
-            parts = tm.fstring_parts(n)
-            raw = parts[2]
-            for macro in ("NUM_STATES", "NUM_PARAMS", "NUM_MONITORED"):
-                if macro in raw:
-                    fv = [v for v in n.values if isinstance(v, ast.FormattedValue)]
-                    if fv:
-                        found[macro] = fv[0].value
+    for x in av.find_all(gv, "s"):
+        txt = av.flatten(x)
+        m = re.fullmatch(r"int (NUM_\w+) = " + av.HO + r"(.*)" + av.HC + r";", txt.strip())
+        if m and len(x[1]) == 3 and x[1][1][0] == "h":
+            found[m.group(1)] = x[1][1][1]
+    texts = " ".join(util.strings_in(gv))
     for macro, fam in (("NUM_STATES", "STATE"), ("NUM_PARAMS", "PARAM"), ("NUM_MONITORED", "MONITOR")):
-        node = found.get(macro)
-        okk = node is not None and slots.size_family(node) == fam
-        ctx.check(okk, rule, g.key(macro), f"{macro} = {slots.canon_size(node) if node is not None else None}", f"gotran2c.get_code: {macro} is {slots.canon_size(node) if node is not None else 'missing'}, which is not the size of the {fam} family", g.where())
+        val = found.get(macro)
+        if val is None and av.has_unk(gv) and macro not in texts:
+            ctx.undecided(rule, g.key(macro), f"how gotran2c.get_code assembles the module is not understood ({av.find_all(gv, 'unk')[0][1]})", g.where())
+            continue
+        okk = val is not None and util.av_size_family(val) == fam
+        ctx.check(okk, rule, g.key(macro), f"{macro} = {av.show(val) if val is not None else None}", f"gotran2c.get_code: {macro} is {av.show(val) if val is not None else 'missing'}, which is not the size of the {fam} family", g.where())
     # array extents
     cgc = sm.cls("codegen/base.py", "CodeGenerator")
     want = {"initial_state_values": "STATE", "initial_parameter_values": "PARAM", "rhs": "STATE", "monitor_values": "MONITOR", "missing_values": "MISSING", "_missing_variables_assignments": "MISSING"}
@@ -327,17 +357,18 @@ def counts(ctx: Ctx, rule: str):
     for short, cls in (("codegen/python.py", "PythonCodeGenerator"), ("codegen/c.py", "CCodeGenerator")):
         for mm in ("_rhs_arguments", "_scheme_arguments"):
             f = sm.func(short, f"{cls}.{mm}")
-            for n in ast.walk(f.node):
-                if isinstance(n, ast.Assign) and isinstance(n.value, ast.Call) and (dotted(n.value.func) or "").endswith("IndexedBase"):
-                    nm = norm(n.targets[0])
-                    fam = {"states": "STATE", "parameters": "PARAM", "values": "STATE"}.get(nm)
-                    sh = call_kw(n.value, "shape")
-                    got = slots.size_family(sh) if sh is not None else None
-                    ctx.check(got == fam, rule, f.key(f"extent::{nm}"), f"{nm}: {got}", f"{f.qualname}: extent of `{nm}` is {slots.canon_size(sh) if sh is not None else None}, not the {fam} size", f.where(n))
+            kw, v = func_tuple(ctx, f)
+            if kw is None:
+                ctx.undecided(rule, f.key("extent"), f"the value returned is not a Func(...) tuple ({av.show(v)[:100]})", f.where())
+                continue
+            for nm, fam in (("states", "STATE"), ("parameters", "PARAM"), ("values", "STATE")):
+                x = kw.get(nm)
+                sh = dict(x[3]).get("shape") if x is not None and x[0] == "call" and x[1].endswith("IndexedBase") else None
+                got = util.av_size_family(sh) if sh is not None else None
+                ctx.check(got == fam, rule, f.key(f"extent::{nm}"), f"{nm}: {got}", f"{f.qualname}: extent of `{nm}` is {av.show(sh) if sh is not None else None}, not the {fam} size", f.where())
             if "python" in short:
-                fc = [c for c in find_calls(f.node, "Func")]
-                nrv = call_kw(fc[0], "num_return_values") if fc else None
-                ctx.check(nrv is not None and slots.size_family(nrv) == "STATE", rule, f.key("num_return_values"), "num_return_values = number of states", f"{f.qualname}: num_return_values is {norm(nrv) if nrv is not None else None}", f.where())
+                nrv = kw.get("num_return_values")
+                ctx.check(nrv is not None and util.av_size_family(nrv) == "STATE", rule, f.key("num_return_values"), "num_return_values = number of states", f"{f.qualname}: num_return_values is {av.show(nrv) if nrv is not None else None}", f.where())
 
 
 def run(ctx: Ctx):
